@@ -87,7 +87,7 @@ func c10Idle(pid *PID) bool {
 // twice in a row (a turn of one may enqueue to another).
 func c10Settle(sys ActorSystem, pids []*PID) error {
 	all := append([]*PID{sys.(*actorSystem).getDeathWatch()}, pids...)
-	deadline := time.Now().Add(30 * time.Second)
+	deadline := time.Now().Add(c10Patience())
 	calm := 0
 	for i := 0; calm < 3; i++ {
 		ok := true
@@ -142,9 +142,17 @@ type c10Step struct {
 }
 
 type c10Out struct {
-	ID    int       `json:"id"`
-	Steps []c10Step `json:"steps"` // steps[0]: after spawning; steps[i+1]: after ops[i]
-	Err   string    `json:"err,omitempty"`
+	ID      int       `json:"id"`
+	Steps   []c10Step `json:"steps"`          // steps[0]: after spawning; steps[i+1]: after ops[i]
+	Hung    bool      `json:"hung,omitempty"` // an operation did not return / the system did not settle in time
+	HungOp  int       `json:"hung_op"`
+	HungHow string    `json:"hung_how,omitempty"`
+	Skipped bool      `json:"skipped,omitempty"` // not run: an earlier case hung and was abandoned
+	Err     string    `json:"err,omitempty"`
+}
+
+func c10Patience() time.Duration {
+	return time.Duration(verifEnvInt("VERIF_C10_PATIENCE_MS", 10000)) * time.Millisecond
 }
 
 type c10World struct {
@@ -203,16 +211,60 @@ func (w *c10World) all() []*PID {
 	return l
 }
 
+func (w *c10World) apply(ctx context.Context, op c10Op) error {
+	var opErr error
+	switch op.Op {
+	case "watch":
+		w.pids[op.W].Watch(w.pids[op.A])
+	case "unwatch":
+		w.pids[op.W].UnWatch(w.pids[op.A])
+	case "stop":
+		opErr = w.pids[op.A].Shutdown(ctx)
+	case "poison":
+		opErr = Tell(ctx, w.pids[op.A], &PoisonPill{})
+	case "passivate":
+		// the passivation stop path (what the passivation manager calls when the actor has been idle)
+		// (a reinstate makes the next passivation decision be skipped once: ask twice)
+		if !w.pids[op.A].tryPassivation("verif") && w.pids[op.A].IsRunning() && !w.pids[op.A].tryPassivation("verif") && w.pids[op.A].IsRunning() {
+			opErr = fmt.Errorf("tryPassivation refused")
+		}
+	case "suspend":
+		// what notifyParent does to an actor whose failure has no directive: registered, but not running
+		w.pids[op.A].suspend("verif")
+	case "reinstate":
+		w.pids[op.A].doReinstate()
+	case "restart":
+		opErr = w.pids[op.A].Restart(ctx)
+	case "spawnchild":
+		a := &c10Actor{}
+		m := &c10Spawn{Name: w.name(op.A), Actor: a, reply: make(chan c10SpawnReply, 1)}
+		opErr = Tell(ctx, w.pids[op.W], m)
+		if opErr == nil {
+			select {
+			case r := <-m.reply:
+				opErr = r.err
+				if r.err == nil {
+					w.pids[op.A], w.acts[op.A], w.names[w.name(op.A)] = r.pid, a, op.A
+				}
+			case <-time.After(c10Patience()):
+				opErr = fmt.Errorf("spawnchild: no reply")
+			}
+		}
+	}
+	return opErr
+}
+
+// c10RunCase returns (result, hung). A hung case is abandoned: its actors are left alone, nothing waits for them.
 func c10RunCase(ctx context.Context, sys ActorSystem, c c10Case) c10Out {
-	out := c10Out{ID: c.ID}
+	out := c10Out{ID: c.ID, HungOp: -1}
 	w := &c10World{sys: sys, caseID: c.ID, pids: map[int]*PID{}, acts: map[int]*c10Actor{}, names: map[string]int{}}
-	defer func() {
+	cleanup := func() {
 		for _, p := range w.pids {
-			if p.IsRunning() {
+			if p.IsRunning() || p.IsSuspended() {
 				_ = p.Shutdown(ctx)
 			}
 		}
-	}()
+	}
 	for i := 0; i < c.N; i++ {
 		a := &c10Actor{}
 		p, err := sys.Spawn(ctx, w.name(i), a, WithPassivationStrategy(passivation.NewTimeBasedStrategy(time.Hour)))
@@ -227,49 +279,19 @@ func c10RunCase(ctx context.Context, sys ActorSystem, c c10Case) c10Out {
 		return out
 	}
 	out.Steps = append(out.Steps, w.observe())
-	for _, op := range c.Ops {
+	for k, op := range c.Ops {
+		done := make(chan error, 1)
+		go func() { done <- w.apply(ctx, op) }()
 		var opErr error
-		switch op.Op {
-		case "watch":
-			w.pids[op.W].Watch(w.pids[op.A])
-		case "unwatch":
-			w.pids[op.W].UnWatch(w.pids[op.A])
-		case "stop":
-			opErr = w.pids[op.A].Shutdown(ctx)
-		case "poison":
-			opErr = Tell(ctx, w.pids[op.A], &PoisonPill{})
-		case "passivate":
-			// the passivation stop path (what the passivation manager calls when the actor has been idle)
-			// (a reinstate makes the next passivation decision be skipped once: ask twice)
-			if !w.pids[op.A].tryPassivation("verif") && w.pids[op.A].IsRunning() && !w.pids[op.A].tryPassivation("verif") && w.pids[op.A].IsRunning() {
-				opErr = fmt.Errorf("tryPassivation refused")
-			}
-		case "suspend":
-			// what notifyParent does to an actor whose failure has no directive: registered, but not running
-			w.pids[op.A].suspend("verif")
-		case "reinstate":
-			w.pids[op.A].doReinstate()
-		case "restart":
-			opErr = w.pids[op.A].Restart(ctx)
-		case "spawnchild":
-			a := &c10Actor{}
-			m := &c10Spawn{Name: w.name(op.A), Actor: a, reply: make(chan c10SpawnReply, 1)}
-			opErr = Tell(ctx, w.pids[op.W], m)
-			if opErr == nil {
-				select {
-				case r := <-m.reply:
-					opErr = r.err
-					if r.err == nil {
-						w.pids[op.A], w.acts[op.A], w.names[w.name(op.A)] = r.pid, a, op.A
-					}
-				case <-time.After(20 * time.Second):
-					opErr = fmt.Errorf("spawnchild: no reply")
-				}
-			}
+		select {
+		case opErr = <-done:
+		case <-time.After(c10Patience()):
+			out.Hung, out.HungOp, out.HungHow = true, k, "the operation did not return"
+			return out
 		}
 		if err := c10Settle(sys, w.all()); err != nil {
-			out.Err = err.Error()
-			break
+			out.Hung, out.HungOp, out.HungHow = true, k, "after the operation the actors and the death watch did not become idle"
+			return out
 		}
 		st := w.observe()
 		if opErr != nil {
@@ -277,6 +299,7 @@ func c10RunCase(ctx context.Context, sys ActorSystem, c c10Case) c10Out {
 		}
 		out.Steps = append(out.Steps, st)
 	}
+	cleanup()
 	return out
 }
 
@@ -286,10 +309,24 @@ func TestVerifC10Seq(t *testing.T) {
 	defer w.close()
 	ctx := context.Background()
 	sys := c10System(t, "verifC10")
-	defer func() { _ = sys.Stop(ctx) }()
+	defer func() {
+		if sys != nil {
+			_ = sys.Stop(ctx)
+		}
+	}()
 	// one case at a time: c10Settle looks at the shared death watch
+	hung := false
 	for _, c := range cases {
-		w.put(c10RunCase(ctx, sys, c))
+		if hung {
+			w.put(c10Out{ID: c.ID, HungOp: -1, Skipped: true})
+			continue
+		}
+		o := c10RunCase(ctx, sys, c)
+		hung = o.Hung
+		w.put(o)
+	}
+	if hung {
+		sys = nil // do not Stop a system with abandoned, possibly blocked actors
 	}
 }
 
@@ -403,14 +440,15 @@ type c10RaceOut struct {
 }
 
 // classes: what had COMPLETED before the stop began decides what the statement demands
-//   pre        Watch returned before the stop began, never unwatched            -> exactly 1
-//   pretwice   Watch called twice before the stop began                          -> exactly 1
-//   rewatch    Watch, UnWatch, Watch all returned before the stop began          -> exactly 1
-//   unw        Watch then UnWatch returned before the stop began                 -> 0
-//   never      never watched                                                     -> 0
-//   racewatch  Watch called concurrently with the stop                           -> at most 1
-//   raceunw    watched before, UnWatch called concurrently with the stop         -> at most 1
-//   flap       Watch/UnWatch in a loop concurrently with the stop                -> at most 1
+//
+//	pre        Watch returned before the stop began, never unwatched            -> exactly 1
+//	pretwice   Watch called twice before the stop began                          -> exactly 1
+//	rewatch    Watch, UnWatch, Watch all returned before the stop began          -> exactly 1
+//	unw        Watch then UnWatch returned before the stop began                 -> 0
+//	never      never watched                                                     -> 0
+//	racewatch  Watch called concurrently with the stop                           -> at most 1
+//	raceunw    watched before, UnWatch called concurrently with the stop         -> at most 1
+//	flap       Watch/UnWatch in a loop concurrently with the stop                -> at most 1
 var c10Classes = []string{"pre", "pretwice", "rewatch", "unw", "never", "racewatch", "raceunw", "flap", "pre", "racewatch"}
 
 func TestVerifC10Race(t *testing.T) {
@@ -418,7 +456,11 @@ func TestVerifC10Race(t *testing.T) {
 	defer w.close()
 	ctx := context.Background()
 	sys := c10System(t, "verifC10race")
-	defer func() { _ = sys.Stop(ctx) }()
+	defer func() {
+		if sys != nil {
+			_ = sys.Stop(ctx)
+		}
+	}()
 	rounds := verifEnvInt("VERIF_C10_ROUNDS", 40)
 	rng := newVerifRNG(verifSeed() + 1010)
 	paths := []string{"shutdown", "poison", "parent", "passivate"}
@@ -522,8 +564,18 @@ func TestVerifC10Race(t *testing.T) {
 			}
 		}()
 		close(start)
-		wg.Wait()
-		deadline := time.Now().Add(20 * time.Second)
+		waited := make(chan struct{})
+		go func() { wg.Wait(); close(waited) }()
+		select {
+		case <-waited:
+		case <-time.After(2 * c10Patience()):
+			close(stopFlap)
+			out.Err = "hung: Watch/UnWatch/stop calls racing the stop did not all return"
+			w.put(out)
+			sys = nil
+			return
+		}
+		deadline := time.Now().Add(2 * c10Patience())
 		for target.IsRunning() && time.Now().Before(deadline) {
 			time.Sleep(50 * time.Microsecond)
 		}
